@@ -54,6 +54,8 @@ pub enum Src {
     Srv(u8),
     /// an address that is not a configured server
     Other,
+    /// the address that `update_servers` can install as a replacement server
+    Alt,
 }
 #[derive(Clone, Copy, Debug, PartialEq, Eq, Hash, PartialOrd, Ord)]
 pub enum SPort {
